@@ -214,3 +214,31 @@ func H_C06_WritePercentage() {
 		vrt.Assert(back.String() == s, "pct-text-stable")
 	}
 }
+
+// H_C06_UnmarshalQuoted: JSON strings (quoted payloads of 4 and 5 arbitrary bytes - longer than the fully symbolic
+// bound of the quick tier): an amount is accepted only if the payload matches the amount pattern; a percentage only
+// if it matches the percentage pattern or, as documented, the amount pattern (a factor).
+func H_C06_UnmarshalQuoted() {
+	n := 4 + vrt.Choice("n", 2)
+	payload := vrt.Bytes("p", n)
+	b := append(append([]byte{'"'}, payload...), '"')
+	apat := Amount{}.JSONSchema().Pattern
+	ppat := Percentage{}.JSONSchema().Pattern
+	if vrt.Choice("type", 2) == 0 {
+		a := Amount{7, 7}
+		err := a.UnmarshalJSON(b)
+		if err == nil {
+			vrt.Assert(vrt.MatchesPattern(string(payload), apat), "quoted-amount-accepted-only-if-pattern")
+		} else {
+			vrt.Assert(a == Amount{7, 7}, "quoted-amount-error-leaves-target")
+		}
+		return
+	}
+	p := Percentage{Amount{7, 7}}
+	err := p.UnmarshalJSON(b)
+	if err == nil {
+		vrt.Assert(vrt.Or(vrt.MatchesPattern(string(payload), ppat), vrt.MatchesPattern(string(payload), apat)), "quoted-percentage-accepted-only-if-pattern")
+	} else {
+		vrt.Assert(p == Percentage{Amount{7, 7}}, "quoted-percentage-error-leaves-target")
+	}
+}
